@@ -682,6 +682,33 @@ func c20e(c *Ctx) {
 			textMap = mu.Map
 		}
 	})
+	// ... or by a helper that fills and returns the set for the list it is given
+	if !okTexts {
+		for _, ci := range callsIn(emit) {
+			hc, isCall := ci.(*ssa.Call)
+			g := callee(ci)
+			if !isCall || g == nil || !c.W.InRepo(g) || len(g.Blocks) == 0 {
+				continue
+			}
+			instrs(g, func(in ssa.Instruction) {
+				mu, ok := in.(*ssa.MapUpdate)
+				if !ok || !freshMap(mu.Map) {
+					return
+				}
+				returned := false
+				for _, r := range returnsOf(g) {
+					returned = returned || (len(r.Results) == 1 && r.Results[0] == mu.Map)
+				}
+				k := c.term(g, mu.Key)
+				for i, a := range hc.Call.Args {
+					if returned && strings.HasPrefix(k, fmt.Sprintf("$%d[", i)) && strings.HasSuffix(k, "].Name") && c.term(emit, a) == "$0.program.Texts" {
+						okTexts = true
+						textMap = hc
+					}
+				}
+			})
+		}
+	}
 	c.Check(okTexts, "Emit/text-labels-built", c.W.FuncPos(emit), "the text-label set holds the name of every program text (hoisted and explicit)", "Emit does not build the text-label set from program.Texts (hoisted text labels would not be protected)")
 	if textMap != nil {
 		for _, anchor := range []string{"emitter.Emitter.emitScriptStatement", "emitter.Emitter.emitMapScriptStatement"} {
